@@ -82,6 +82,10 @@ type caseT struct {
 	TokenSteps []int  `json:"token_steps"` // client kind: id increments chosen by the reference server (cycled)
 	FirstSeq   uint32 `json:"first_seq"`   // first sequence number of the reference side (server kind: also of the gopcua server)
 	Seed       uint32 `json:"seed"`        // nonces of the reference side are derived from it
+	// SkewS (client kind): the reference server's clock differs from the client's
+	// by this many seconds (CreatedAt of every token it issues). The expiry the
+	// check judges is counted from the moment the token was handed out.
+	SkewS int `json:"server_clock_skew_s,omitempty"`
 }
 
 var secPolicies = []string{"Basic128Rsa15", "Basic256", "Basic256Sha256", "Aes128_Sha256_RsaOaep", "Aes256_Sha256_RsaPss"}
@@ -354,6 +358,7 @@ func (s *refServer) serve(ln net.Listener) {
 		kb := keys.Get("b", 2048)
 		sess := refcodec.NewServerSession(conn, kb.Key, kb.Cert, s.c.ChannelID, s.c.TokenBase)
 		sess.Timeout = 90 * time.Second
+		sess.CreatedAtSkew = time.Duration(s.c.SkewS) * time.Second
 		s.mu.Lock()
 		s.sess = sess
 		s.mu.Unlock()
@@ -994,9 +999,18 @@ func genMixed(t *rapid.T) caseT {
 	return c
 }
 
+// genSkew: a third of the client-kind cases meet a server whose clock is off.
+func genSkew(t *rapid.T, c *caseT) {
+	if c.Kind == "client" && rapid.IntRange(0, 2).Draw(t, "skewed") == 0 {
+		c.SkewS = rapid.SampledFrom([]int{3600, 86400, 30, -30, -3600}).Draw(t, "skew")
+	}
+}
+
 func genCase(t *rapid.T) caseT {
 	if rapid.IntRange(0, 3).Draw(t, "mixedLifetimes") == 0 {
-		return genMixed(t)
+		c := genMixed(t)
+		genSkew(t, &c)
+		return c
 	}
 	var c caseT
 	c.Kind = rapid.SampledFrom([]string{"client", "server"}).Draw(t, "kind")
@@ -1051,6 +1065,7 @@ func genCase(t *rapid.T) caseT {
 	}
 	c.FirstSeq = rapid.Uint32Range(1, 100000).Draw(t, "seq")
 	c.Seed = rapid.Uint32().Draw(t, "seed")
+	genSkew(t, &c)
 	return c
 }
 
@@ -1085,6 +1100,9 @@ func record(c caseT, o outcome) {
 		fmt.Sprintf("renewals-by:%s/%s", c.Kind, driven),
 		fmt.Sprintf("retained:%s/%s/%v", c.Kind, o.timing, o.retained == 1),
 		fmt.Sprintf("intent:%s->%s", c.Timing, o.timing),
+	}
+	if c.SkewS != 0 {
+		classes = append(classes, fmt.Sprintf("server-clock-skew:%ds/%s/stale-%s,control-%s", c.SkewS, o.timing, o.stale, o.control))
 	}
 	if len(c.LifesMS) > 0 {
 		classes = append(classes, "mixed-lifetimes:"+c.Kind+"/"+o.timing+"(victim expires before an older token)")
